@@ -229,6 +229,7 @@ void* ets_base<ETS_key_type>::table_lookup( bool& exists ) {
                     exists = true;
                     return s.ptr;
                 } else {
+                    __TBB_VERIF_POINT(vp_ets_found_older, this, 0);
                     // Success at some other level.  Need to insert at top level.
                     exists = true;
                     found = s.ptr;
@@ -254,6 +255,7 @@ void* ets_base<ETS_key_type>::table_lookup( bool& exists ) {
                 a->next = r;
                 call_itt_notify(releasing,a);
                 array* new_r = r;
+                __TBB_VERIF_POINT(vp_ets_root_cas, this, s);
                 if( my_root.compare_exchange_strong(new_r, a) ) break;
                 call_itt_notify(acquired, new_r);
                 __TBB_ASSERT(new_r != nullptr, nullptr);
@@ -270,6 +272,7 @@ void* ets_base<ETS_key_type>::table_lookup( bool& exists ) {
     // Whether a slot has been found in an older table, or if it has been inserted at this level,
     // it has already been accounted for in the total.  Guaranteed to be room for it, and it is
     // not present, so search for empty slot and use it.
+    __TBB_VERIF_POINT(vp_ets_slot_claim, this, 0);
     array* ir = my_root.load(std::memory_order_acquire);
     call_itt_notify(acquired, ir);
     std::size_t mask = ir->mask();
